@@ -91,6 +91,22 @@ def run_case(case: Dict[str, Any], ctx) -> None:
         ctx.violation(key("scale-factors-differ-between-draws"), f"{A.scale_trace} vs {B.scale_trace} vs {C.scale_trace}", cfg=cfg)
     stol = 1e-11 if dtype == torch.float64 else 2 * tol  # fitted scalars of tiny low-precision tensors are noisy
     any_nonzero = False
+    lowp = dtype in (torch.bfloat16, torch.float16)
+    _noise_cache: Dict[str, Dict[str, float]] = {}
+
+    def noise_of(tag: str, name: str) -> float:
+        """What PyTorch's own low-precision op loses on this very draw (relative to max|grad|): a gradient that is the small
+        remainder of a cancelling sum carries that much relative error, and so does the scalar fitted to it."""
+        if not lowp:
+            return 0.0
+        if tag not in _noise_cache:
+            from ..optable import reference_noise
+            sd, su = {"A": (sA, uA), "B": (sB, uB), "C": (sA, uB)}[tag]
+            try:
+                _noise_cache[tag] = reference_noise(op, cfg, dtype, sd, su)
+            except Exception:
+                _noise_cache[tag] = {}
+        return _noise_cache[tag].get(name, 0.0)
     for name in A.b:
         bs = [fr.b.get(name) for fr in (A, B, C)]
         rs = [fr.res_b.get(name, 0.0) for fr in (A, B, C)]
@@ -110,14 +126,9 @@ def run_case(case: Dict[str, Any], ctx) -> None:
         any_nonzero = True
         ctx.count("fit:gradients", 3)
         for b, r, tag in zip(bs, rs, "ABC"):
-            if r > tol and dtype != torch.float64 and dtype != torch.float32:
+            if r > tol and lowp:
                 # low precision: is the deviation above what PyTorch's own op suffers on these very inputs?
-                from ..optable import reference_noise
-                sd, su = {"A": (sA, uA), "B": (sB, uB), "C": (sA, uB)}[tag]
-                try:
-                    noise = reference_noise(op, cfg, dtype, sd, su).get(name, 0.0)
-                except Exception:
-                    noise = 0.0
+                noise = noise_of(tag, name)
                 if r <= 8 * noise + tol:
                     ctx.count("lowp:within-noise-of-the-reference-op")
                     continue
@@ -129,10 +140,14 @@ def run_case(case: Dict[str, Any], ctx) -> None:
             if not (b > 0):
                 ctx.violation(key(f"grad-scalar-not-positive:{name}"), f"b={b!r}", cfg=cfg, constraint=constraint)
                 return
-        if not rel_close(bs[0], bs[1], stol):
+        if not rel_close(bs[0], bs[1], stol) and lowp and rel_close(bs[0], bs[1], stol + 8 * (noise_of("A", name) + noise_of("B", name))):
+            ctx.count("lowp:scalar-within-noise-of-the-reference-op")
+        elif not rel_close(bs[0], bs[1], stol):
             ctx.violation(key(f"grad-scalar-depends-on-data:{name}"), f"b_A={bs[0]!r} b_B={bs[1]!r}", cfg=cfg,
                           constraint=constraint, dtype=case["dtype"])
-        if not rel_close(bs[0], bs[2], stol):
+        if not rel_close(bs[0], bs[2], stol) and lowp and rel_close(bs[0], bs[2], stol + 8 * (noise_of("A", name) + noise_of("C", name))):
+            ctx.count("lowp:scalar-within-noise-of-the-reference-op")
+        elif not rel_close(bs[0], bs[2], stol):
             ctx.violation(key(f"grad-scalar-depends-on-upstream:{name}"), f"b_A={bs[0]!r} b_C={bs[2]!r}", cfg=cfg,
                           constraint=constraint, dtype=case["dtype"])
         g1, g2 = A.grads_u[name], A2.grads_u.get(name)
@@ -144,7 +159,7 @@ def run_case(case: Dict[str, Any], ctx) -> None:
         if R.u_exc is None and R.ref_exc is None:
             for name, b in A.b.items():
                 rb = R.b.get(name)
-                if b is not None and rb is not None and not rel_close(b, rb, 2 * tol):
+                if b is not None and rb is not None and not rel_close(b, rb, 2 * tol + 8 * noise_of("A", name)):
                     ctx.violation(key(f"grad-scalar-differs-from-float64:{name}"), f"{case['dtype']}: {b!r}; float64: {rb!r}", cfg=cfg)
     if any_nonzero:
         ctx.nontrivial(sig_of(case))
